@@ -589,5 +589,6 @@ pub fn gen_scenario(t: &mut Tape, p: &Profile) -> Scenario {
         mutation: None,
         sniff: false,
         epoch_liveness: false,
+        synth: None,
     }
 }
